@@ -166,7 +166,7 @@ def gen_cases(seed, chunk, n, tier):
 
 
 def run(ctx):
-    n = 400 if ctx.tier == "quick" else 10000
+    n = 2500 if ctx.tier == "quick" else 20000
     stream.run_stream(ctx, "routes", "harness.props.c04", "gen_cases", n, per_chunk=25,
                       canon_kw=dict(drop_zero=True, tables=False))
 
